@@ -121,6 +121,7 @@ theorem select_deCurrentToBest (O : Ops F) (y : Nat) (ss : List (List Nat)) (pop
         .ok ((pop.zip ss).flatMap fun (ind, s) => ind :: b :: pick (pop.filter (fun j => !sameInd j ind)) s) := rfl
 theorem select_iwo (O : Ops F) (a b : Nat) (w : Witness F) (pop : Pop F) :
     select O (.iwo a b) w pop =
+      if b < a then .error .exec else
       match pop with
       | [] => .error .exec
       | _ =>
@@ -131,7 +132,6 @@ theorem select_iwo (O : Ops F) (a b : Nat) (w : Witness F) (pop : Pop F) :
           | none => .error .exec
           | some (worst, bst) =>
             if !O.fin worst then .error .exec
-            else if b < a then .error .panic
             else .ok ((pop.zip objs).flatMap fun (ind, o) => List.replicate (iwoCount O a b worst bst o) ind) := rfl
 
 theorem select_mem (O : Ops F) (op : Op F) (w : Witness F) (pop sel : Pop F)
@@ -202,7 +202,8 @@ theorem select_mem (O : Ops F) (op : Op F) (w : Witness F) (pop sel : Pop F)
       · rcases List.mem_cons.mp hs with rfl | hs
         · exact best_mem hb
         · exact (List.mem_filter.mp (mem_of_mem_pick hs)).1
-  · split at h
+  · split_ifs at h
+    split at h
     · cases h
     · split at h
       · cases h
